@@ -165,14 +165,43 @@ def run(R):
     kws = dict((k.arg, k.value) for k in c.keywords)
     zipped = c.args[0] if c.args else None
     okz = isinstance(zipped, ast.Call) and q.call_name(zipped) == "zip" and len(zipped.args) == 2
+    # the same thing as an index sort: sorted(range(len(values)), key=keys.__getitem__ | lambda i: keys[i]) and [values[i] for i in order]
+    idx_form = isinstance(zipped, ast.Call) and q.call_name(zipped) == "range" and len(zipped.args) == 1 and isinstance(zipped.args[0], ast.Call) \
+        and q.call_name(zipped.args[0]) == "len" and len(zipped.args[0].args) == 1
+    if idx_form:
+        varg = q.src(zipped.args[0].args[0])
+        kf = kws.get("key")
+        karg = None
+        if isinstance(kf, ast.Attribute) and kf.attr == "__getitem__":
+            karg = q.src(kf.value)
+        elif isinstance(kf, ast.Lambda) and len(kf.args.args) == 1 and isinstance(kf.body, ast.Subscript) and q.src(kf.body.slice) == kf.args.args[0].arg:
+            karg = q.src(kf.body.value)
+        R.check(karg is not None, "C14.SORT-KEY", f.qualname + ":key", R.site(f, c),
+                "asorted sorts the positions by their keys only (values are never compared, ties keep input order)",
+                "asorted's index sort does not use the key list alone as its key (`%s`)" % q.src(c)[:90])
+        R.check("reverse" in kws and q.src(kws["reverse"]) == "reverse", "C14.SORT-KEY", f.qualname + ":reverse", R.site(f, c),
+                "reverse is forwarded to sorted()", "reverse is not forwarded to sorted()")
+        rets = [n.value for n in q.scope_nodes(f.node) if isinstance(n, ast.Return)]
+        order_names = set(t.id for n in q.scope_nodes(f.node) if isinstance(n, ast.Assign) and n.value is c for t in n.targets if isinstance(t, ast.Name))
+        okr = len(rets) == 1 and isinstance(rets[0], ast.ListComp) and len(rets[0].generators) == 1 and not rets[0].generators[0].ifs \
+            and q.src(rets[0].elt) == "%s[%s]" % (varg, q.src(rets[0].generators[0].target)) \
+            and (q.src(rets[0].generators[0].iter) in order_names or rets[0].generators[0].iter is c)
+        R.check(okr, "C14.SORT-KEY", f.qualname + ":values", R.site(f), "the values are read back by the sorted positions", "the result does not read the values at the sorted positions")
+        if karg is not None:
+            kvals = common.assigned_values(f.node, karg)
+            okkeys = any(k == "expr" and q.src(v) == "(yield amap.asynq(key, %s))" % varg for k, v in kvals) and any(k == "expr" and q.src(v) == varg for k, v in kvals)
+            R.check(okkeys, "C14.SORT-KEY", f.qualname + ":keys", R.site(f), "keys are the values themselves (no key) or amap(key, values) over the same list",
+                    "keys are not computed from the same list of values that is sorted")
+        okz = False
     keypos = 0
     okk = isinstance(kws.get("key"), ast.Lambda) and len(kws["key"].args.args) == 1 and \
         q.src(kws["key"].body) == "%s[%d]" % (kws["key"].args.args[0].arg, keypos)
-    R.check(okz and okk, "C14.SORT-KEY", f.qualname + ":key", R.site(f, c),
+    if not idx_form:
+      R.check(okz and okk, "C14.SORT-KEY", f.qualname + ":key", R.site(f, c),
             "asorted sorts zip(keys, values) with key= selecting the key component only (values are never compared, ties keep input order)",
             "asorted does not sort (key, value) pairs on the key component alone (`%s`): equal keys fall through to other tuple components - values get "
             "compared, or a position tie-breaker is reversed together with reverse=True" % q.src(c)[:90])
-    R.check("reverse" in kws and q.src(kws["reverse"]) == "reverse", "C14.SORT-KEY", f.qualname + ":reverse", R.site(f, c),
+      R.check("reverse" in kws and q.src(kws["reverse"]) == "reverse", "C14.SORT-KEY", f.qualname + ":reverse", R.site(f, c),
             "reverse is forwarded to sorted()", "reverse is not forwarded to sorted()")
     if okz:
         karg, varg = q.src(zipped.args[0]), q.src(zipped.args[1])
